@@ -22,7 +22,7 @@ def gen(tag, size, seed=0):
     """deterministic pseudo random bytes (never all zero for size>0)"""
     if size == 0:
         return b""
-    d = hashlib.shake_256(("%s:%s" % (seed, tag)).encode()).digest(size)
+    d = hashlib.shake_256(("%s:%s" % (seed, tag)).encode(errors="surrogateescape")).digest(size)
     if d[0] == 0:
         d = b"\x01" + d[1:]
     return d
@@ -31,7 +31,7 @@ def gen(tag, size, seed=0):
 class Config:
     def __init__(self, levels=1, z=False, ndisks=2, blocksize=1, hashsize=16, hashkind="murmur3",
                  splits=None, parity_limit=None, contents=None, autosave_at=None, nohidden=False,
-                 rules=(), pool=False, disknames=None, extra_conf=()):
+                 rules=(), pool=False, disknames=None, extra_conf=(), tag=""):
         self.levels = levels
         self.z = z
         self.ndisks = ndisks
@@ -47,6 +47,7 @@ class Config:
         self.pool = pool
         self.disknames = list(disknames or ["d%d" % (i + 1) for i in range(ndisks)])
         self.extra_conf = list(extra_conf)
+        self.tag = tag
 
     def level_name(self, l):
         if self.z and l == 2:
@@ -57,7 +58,7 @@ class Config:
         return dict(levels=self.levels, z=self.z, ndisks=self.ndisks, disknames=self.disknames, blocksize=self.blocksize,
                     hashsize=self.hashsize, hashkind=self.hashkind, splits={str(k): v for k, v in self.splits.items()},
                     contents=self.contents, parity_limit=self.parity_limit, autosave_at=self.autosave_at,
-                    nohidden=self.nohidden, rules=self.rules, pool=self.pool, extra_conf=self.extra_conf)
+                    nohidden=self.nohidden, rules=self.rules, pool=self.pool, extra_conf=self.extra_conf, tag=self.tag)
 
     @staticmethod
     def from_dict(d):
@@ -73,12 +74,14 @@ class Config:
             s += "/split" + ",".join("%d:%d" % kv for kv in sorted(self.splits.items()))
         if len(self.contents) > 1:
             s += "/c%d" % len(self.contents)
+        if self.tag:
+            s += "/" + self.tag
         return s
 
     def clone(self, **kw):
         c = Config(self.levels, self.z, self.ndisks, self.blocksize, self.hashsize, self.hashkind, self.splits,
                    self.parity_limit, self.contents, self.autosave_at, self.nohidden, self.rules, self.pool,
-                   self.disknames, self.extra_conf)
+                   self.disknames, self.extra_conf, self.tag)
         for k, v in kw.items():
             setattr(c, k, v)
         return c
